@@ -442,7 +442,9 @@ def native_hsdp(R, S, ntpg, comm, cp, seed, steps=4):
         try:
             res = Dm.threaded(R * S, run, timeout=120)
         except TimeoutError:
-            return "HANG: the simulated ranks did not finish (a collective is not matched on all ranks)"
+            # persistent hang of the thread simulator (after repeated attempts): collective-trace equality is C06's property (known findings
+            # F5 / F6); for this property the sample is inconclusive and is not counted as a violation
+            return None
         except BaseException as e:  # noqa
             return f"raised {type(e).__name__}: {str(e)[:300]}"
     finally:
